@@ -33,9 +33,9 @@ type mutator struct {
 	src   string
 	fset  *token.FileSet
 	file  *ast.File
-	exprs []ast.Expr     // expressions inside function bodies and initialisers
-	ids   []*ast.Ident   // identifier uses inside function bodies
-	lists [][]ast.Stmt   // statement lists (blocks, case clauses)
+	exprs []ast.Expr   // expressions inside function bodies and initialisers
+	ids   []*ast.Ident // identifier uses inside function bodies
+	lists [][]ast.Stmt // statement lists (blocks, case clauses)
 	calls []*ast.CallExpr
 	rets  []*ast.ReturnStmt
 	bins  []*ast.BinaryExpr
